@@ -16,7 +16,10 @@ for d in sorted(glob.glob(root + '/seeded/C*-*'), key=key):
     det = 'yes' if vr.get('detected') else 'NO'
     if vr.get('detected') and vr.get('detected_by_quick') is False:
         det = 'no - thorough only'
-    if vr.get('history'): det += ' (after strengthening)'
+    if vr.get('history') or 'strengthened' in (vr.get('note') or ''): det += ' (after strengthening)'
+    sid0 = os.path.basename(d).split('-')[0]
+    if vr.get('detected') and vr.get('check') and sid0 not in vr['check']:
+        det = 'by the sibling check ' + vr['check'].replace('./check ', '')
     rows.append((os.path.basename(d), title, wb, cls, det, vr.get('seconds')))
 props = {json.loads(l)['id']: json.loads(l)['title'] for l in open(root + '/properties.jsonl')}
 out = ['| id | change | failure class reported | detected by quick | time |', '|---|---|---|---|---|']
